@@ -1,4 +1,4 @@
-CONSTANTS GAPSIZES = {1, 2, 3}  GAPS = {0, 1, 2, 3, 5}  MAXE = 4  MAXW = 0  ITERS = 1  KEYS = {0}
+CONSTANTS GAPSIZES = {1, 2, 3}  GAPS = {0, 1, 2, 4}  MAXE = 4  MAXW = 0  ITERS = 1  KEYS = {0}
 SPECIFICATION Spec
 INVARIANTS C14_Session EmitReplay
 CHECK_DEADLOCK FALSE
